@@ -10,10 +10,12 @@
 import asyncio
 
 from bumble import core as _core
+from bumble import device as _device
 from bumble import l2cap as _l2cap
 from bumble import utils as _utils
 from contracts.c16_env import (CANCELLED, EMITTER, EXCEPTION, FUT, FUT_INLINE, NEW_FUT, PENDING, RESULT, TASKFUT, Fut, RecEmitter, TaskFut, fst, fut_released,
                                run_done_callbacks)
+from pyvc import ext_c03  # noqa: F401  (skeleton profile helpers)
 from pyvc import ext_c16  # noqa: F401
 from pyvc.contracts import Bytes as _Bytes
 from pyvc.contracts import ConcList as _ConcList
@@ -162,7 +164,7 @@ def make_cut_hook(teardown):
     def finish(path, v, node):
         st, guard = path.getattr(v, 'st'), path.getattr(v, 'guard')
         if path.branch(path.compare_op(ast.Eq(), st, RESULT)):
-            return None
+            return Unknown('result of the awaited future') if path.skeleton else None
         if path.branch(path.compare_op(ast.Eq(), st, CANCELLED)):
             path.raise_(asyncio.CancelledError)
         if path.branch(path.compare_op(ast.Eq(), st, EXCEPTION)):
@@ -526,3 +528,92 @@ contract(
     await_hook=make_cut_hook(lambda path, env: call_method(path, env['self'], 'on_disconnection', path.getattr(env['connection'], 'handle'), 0x13)),
     note='bounded(count=1: one channel requested; the tables start empty); channel objects and the request PDU are uninterpreted (skeleton)',
 )
+
+
+# ---------------------------------------------------------------------------
+# (c) the other procedures of bumble/device.py that wait for a controller / peer event of one connection: every future
+# they await must be in a protected form (no layer's teardown completes these futures: they are locals of the procedure)
+# ---------------------------------------------------------------------------
+def _async_def_names():
+    import ast
+    import glob
+    import os
+
+    import bumble
+
+    names = set()
+    root = os.path.dirname(bumble.__file__)
+    for fn in glob.glob(os.path.join(root, '**', '*.py'), recursive=True):
+        for x in ast.walk(ast.parse(open(fn).read())):
+            if isinstance(x, ast.AsyncFunctionDef):
+                names.add(x.name)
+    return names
+
+
+ASYNC_DEF_NAMES = _async_def_names()
+
+
+def make_form_hook():
+    """await hook of the protected-form family: a future object must be wrapped (guard 1) or bounded (guard 2); an
+    uninterpreted awaited value is accepted only when the awaited expression is a call of a method/function whose name
+    is the name of an `async def` of the bumble package (a coroutine call: its own awaits are its own obligations) or
+    asyncio.sleep (bounded by its timer)"""
+    import ast
+
+    from pyvc.engine import Unsupported
+    from pyvc.values import Unknown
+
+    cut = make_cut_hook(lambda path, env: None)
+
+    def hook(path, v, node):
+        if _is_future(path, v):
+            return cut(path, v, node)
+        if isinstance(v, Unknown) or v is None:
+            call = node.value
+            name = None
+            if isinstance(call, ast.Call):
+                name = call.func.attr if isinstance(call.func, ast.Attribute) else getattr(call.func, 'id', None)
+            if name is None or not (name in ASYNC_DEF_NAMES or name == 'sleep'):
+                raise Unsupported(f'await of `{ast.unparse(node.value)[:60]}`: neither a modelled future nor a coroutine call')
+            return v
+        return v
+
+    return hook
+
+
+model('ghost:Self#c16f', fields={})
+model('ghost:CisLink#c16f', fields=dict(acl_connection=W_CONN))
+FORM_FAMILY = [
+    'Device.update_connection_parameters', 'Device.update_connection_parameters_with_subrate', 'Device.update_connection_subrate',
+    'Device.authenticate', 'Device.encrypt', 'Device.switch_role', 'Device.request_remote_name',
+    'Device.get_remote_le_features', 'Device.get_remote_classic_features', 'Device.get_remote_cs_capabilities',
+    'Device.create_cs_config', 'Device.enable_cs_security', 'Device.enable_cs_procedure',
+    'Device.accept_cis_request', 'Device.create_big', 'Device.create_big_sync',
+]
+for _fn in FORM_FAMILY:
+    _native = getattr(_device.Device, _fn.split('.')[1])
+    _pnames = [p for p in __import__('inspect').signature(_native).parameters]
+    _params = {p: Any for p in _pnames}
+    _params['self'] = Inst('ghost:Self#c16f')
+    if 'connection' in _params:
+        _params['connection'] = W_CONN
+    if 'cis_link' in _params:
+        _params['cis_link'] = Inst('ghost:CisLink#c16f')
+    contract(
+        f'bumble.device:{_fn}',
+        prop='C16',
+        profile='skeleton',
+        params=_params,
+        ghost=W_GHOST,
+        requires=lambda ghost: [not ghost.cut],
+        raises={asyncio.CancelledError: None, asyncio.TimeoutError: None, _core.BaseBumbleError: None, RuntimeError: None},
+        modifies=['ghost.cut'],
+        inline=FUT_INLINE,
+        stubs=WAIT_STUBS,
+        with_enter=lambda path, cm: cm,
+        with_exit=lambda path, cm: None,
+        decorators_ok=['utils.experimental(\'Only for testing.\')', 'experimental'],
+        await_hook=make_form_hook(),
+        invariants={0: lambda: [True]},  # get_remote_classic_features reads the feature pages in a loop: nothing to carry over
+        note='protected-form family: every future this procedure awaits is wrapped by cancel_on_disconnection / cancel_on_event or bounded by wait_for',
+    )
